@@ -246,6 +246,8 @@ func (c *Cond) orWithNonTagSide(keys map[string]bool) bool {
 
 // condGen draws condition trees over a vocabulary taken from the generated points.
 type condGen struct {
+	keyOnly bool     // leaves are equalities (or anchored regex alternations) on shard-key tags only
+	keyTags []string // the shard-key tags (for keyOnly)
 	r       *rand.Rand
 	tagKeys []string            // keys to use in tag predicates (shard-key tags weighted by repetition)
 	tagVals map[string][]string // values seen (+ one unseen)
@@ -257,6 +259,17 @@ var cmpOps = []string{"=", "!=", "<", "<=", ">", ">="}
 func (g *condGen) leaf() *Cond {
 	x := g.r.IntN(100)
 	key := g.tagKeys[g.r.IntN(len(g.tagKeys))]
+	if g.keyOnly && len(g.keyTags) > 0 {
+		// the shapes the pruning code extracts from: tag = 'v' and /^(v|w)$/
+		key = g.keyTags[g.r.IntN(len(g.keyTags))]
+		vals := g.tagVals[key]
+		val := vals[g.r.IntN(len(vals))]
+		if x < 80 {
+			return &Cond{Kind: kTagEq, Key: key, Val: val}
+		}
+		v2 := vals[g.r.IntN(len(vals))]
+		return &Cond{Kind: kTagRe, Key: key, Val: "^(" + regexp.QuoteMeta(val) + "|" + regexp.QuoteMeta(v2) + ")$"}
+	}
 	vals := g.tagVals[key]
 	val := vals[g.r.IntN(len(vals))]
 	switch {
